@@ -119,7 +119,11 @@ class Run:
     def finish(self, stats, extra_cov=None):
         mod = self.mod
         wall = time.time() - self.t0
-        outdir = os.path.join(VERIF, "out", "violations", self.prop)
+        outdir = os.path.join(os.environ.get("VERIF_OUT_DIR", os.path.join(VERIF, "out")), "violations", self.prop)
+        if os.path.isdir(outdir):  # replay artefacts of earlier runs are stale
+            for fn in os.listdir(outdir):
+                if fn.endswith(".json"):
+                    os.remove(os.path.join(outdir, fn))
         reported, known_hits = [], collections.OrderedDict()
         for ck, (case, v) in self.viol_classes.items():
             e = match_known(self.prop, v, self.known)
@@ -176,8 +180,9 @@ class Run:
                   coverage=cov, assumptions=list(getattr(mod, "ASSUMPTIONS", [])),
                   wall_s=round(wall, 2), violations=len(reported),
                   repo=REPO, notes=self.notes)
-        os.makedirs(os.path.join(VERIF, "evidence"), exist_ok=True)
-        with open(os.path.join(VERIF, "evidence", self.prop + ".json"), "w") as f:
+        evdir = os.environ.get("VERIF_EVIDENCE_DIR", os.path.join(VERIF, "evidence"))
+        os.makedirs(evdir, exist_ok=True)
+        with open(os.path.join(evdir, self.prop + ".json"), "w") as f:
             json.dump(ev, f, indent=1, sort_keys=True, default=str)
 
         print("[%s %s] states=%d transitions=%d executions=%d validated=%d nontrivial=%d outcomes=%d "
